@@ -767,6 +767,24 @@ fn export<'tcx>(tcx: TyCtxt<'tcx>) -> String {
         }
         cx.export_body(&mut j);
         j.obj_end();
+        // promoted constants of this body (e.g. `0.0..=1.0` used by reference)
+        if matches!(kind, DefKind::Fn | DefKind::AssocFn | DefKind::Closure) {
+            for (pi, pbody) in tcx.promoted_mir(did).iter_enumerated() {
+                let pcx = Cx { tcx, body: pbody, env };
+                j.obj_begin();
+                j.key("id").str(&format!("{}::promoted[{}]", dpath(tcx, did), pi.as_usize()));
+                j.key("kind").str("Promoted");
+                j.key("file").str(&file);
+                j.key("lo").num(lo as i128);
+                j.key("hi").num(std::cmp::max(hi, bhi) as i128);
+                j.key("vis").str("n/a");
+                j.key("reachable").bool(false);
+                j.key("parent").str(&dpath(tcx, did));
+                j.key("parent_kind").str(&format!("{kind:?}"));
+                pcx.export_body(&mut j);
+                j.obj_end();
+            }
+        }
     }
     j.arr_end();
 
